@@ -1,9 +1,11 @@
 package namer
 
 import (
+	"go/token"
 	"slices"
 	"strconv"
 	"strings"
+	"unicode"
 
 	"github.com/octohelm/gengo/pkg/camelcase"
 	gengotypes "github.com/octohelm/gengo/pkg/types"
@@ -43,25 +45,58 @@ func (tracker *defaultImportTracker) add(path string) {
 
 	parts := strings.Split(path, "/")
 
+	localName := ""
+
 	for i := range len(parts) {
-		localName := golangTrackerLocalName(parts, i+1)
+		localName = golangTrackerLocalName(parts, i+1)
 
-		if tracker.checkStd {
-			if p, ok := std.nameToPath[localName]; ok && p != path {
-				continue
-			}
+		if tracker.bind(path, localName) {
+			return
 		}
+	}
 
-		if _, ok := tracker.nameToPath[localName]; !ok {
-			tracker.nameToPath[localName] = path
-			tracker.pathToName[path] = localName
-			break
+	// every candidate is taken, reserved or a keyword: number the last one
+	for i := 2; ; i++ {
+		if tracker.bind(path, localName+strconv.Itoa(i)) {
+			return
 		}
 	}
 }
 
+func (tracker *defaultImportTracker) bind(path string, localName string) bool {
+	if token.IsKeyword(localName) {
+		return false
+	}
+
+	if tracker.checkStd {
+		if p, ok := std.nameToPath[localName]; ok && p != path {
+			return false
+		}
+	}
+
+	if _, ok := tracker.nameToPath[localName]; ok {
+		return false
+	}
+
+	tracker.nameToPath[localName] = path
+	tracker.pathToName[path] = localName
+	return true
+}
+
+// toLocalName builds a name usable as a Go package identifier.
 func toLocalName(parts ...string) string {
-	return strings.ToLower(camelcase.LowerCamelCase(strings.Join(parts, "")))
+	name := strings.Map(func(r rune) rune {
+		if r == '_' || unicode.IsLetter(r) || unicode.IsDigit(r) {
+			return r
+		}
+		return -1
+	}, strings.ToLower(camelcase.LowerCamelCase(strings.Join(parts, ""))))
+
+	if name == "" || name == "_" || unicode.IsDigit([]rune(name)[0]) {
+		return "pkg" + name
+	}
+
+	return name
 }
 
 func golangTrackerLocalName(pathSegments []string, n int) string {
